@@ -198,11 +198,11 @@ func ruleCSVDialect(c *core.Ctx, rule string) {
 func init() {
 	register(&Property{
 		ID:    "C13",
-		Rules: []string{"C13-R1", "C13-R2", "C13-R3", "C13-R4", "C13-R5", "C01-R1", "C01-R2", "C01-R4", "C01-R5", "C02-R5", "C06-R7", "C04-R1", "C04-R3"},
+		Rules: []string{"C13-R1", "C13-R2", "C13-R3", "C13-R4", "C13-R5", "C01-R1", "C01-R2", "C01-R4", "C01-R5", "C02-R5", "C06-R7", "C04-R1", "C04-R3", "C14-R1"},
 		Explain: "Decides the mechanisms that make the CSV exports lossless: C13-R1 in package csv the output is written only through encoding/csv.Writer (quoting of commas, quotes and line breaks is the library's); C13-R2 the name fields of each row are the parsed Name/Header values untouched; " +
 			"C13-R3 the separator's only source is the constant ',' and row dates use the constant ISO layout; C13-R4 each amount is fmt.Sprintf(constant %.Nf, value) used as is (Go's %f is correctly rounded); C13-R5 the resolved export collects recipe names and sorts them (element order inside a recipe is C01's); " +
 			"C01-R4 and C02-R5 (shared) one row per (recipe, resolved element) and per (day, distinct food) rests on the two merge-by-name loops keeping one slot per name in first-appearance position; " +
-			"C06-R7 (shared) row dates are the log's own dates: nothing converts them to another zone; C04-R1/R3 (shared) names reach the exporter as the tokenizer cut them at the last blank, with the documented trim sets (no field splitting that would collapse inner blanks).",
+			"C14-R1 (shared) the only constant-only layout in the tree is the ISO layout 2006-01-02 of the CSV rows; C06-R7 (shared) row dates are the log's own dates: nothing converts them to another zone; C04-R1/R3 (shared) names reach the exporter as the tokenizer cut them at the last blank, with the documented trim sets (no field splitting that would collapse inner blanks).",
 		NotDecided:  "that reading the output back yields the same strings (follows from R1+R2 and the library), the number of rows per day, what the precision is",
 		Assumptions: []string{"encoding/csv quotes fields per RFC 4180", "fmt's %f formatting is correctly rounded"},
 		Run: func(c *core.Ctx) {
@@ -215,6 +215,7 @@ func init() {
 			}
 			ruleLessByName(c, "C01-R2")
 			ruleZoneAPIs(c, "C06-R7")
+			ruleDateLayouts(c, "C14-R1")
 			analyseParserLoop(c, map[string]bool{"C04-R1": true, "C04-R3": true})
 			if fn := c.P.LookupMethod(core.LibPath, "Elements", "SumMerge"); requireAnchor(c, "C01-R4", "Elements.SumMerge", fn != nil) {
 				ruleMergeByName(c, "C01-R4", fn, true)
